@@ -2,7 +2,7 @@
    ExtrOcamlBasic only: bool, option, list, prod, unit, sumbool map to OCaml's; Z, N, positive,
    nat stay the extracted inductives.  No Extract Constant of ours. *)
 From Coq Require Import Extraction ExtrOcamlBasic.
-From KV Require Import DetectProofs Base FP Params ParamsProofs Weave WeaveProofs WeaveCheck Sort Detect Api Cmp Bpm Formats Cli Kernels Pipeline.
+From KV Require Import DetectProofs Base FP Params ParamsProofs Weave WeaveProofs WeaveCheck Sort Detect Api Cmp Bpm BpmBits Formats Cli Kernels Pipeline.
 Extraction Language OCaml.
 Set Extraction Optimize.
 Extraction "../ocaml/kvmodel.ml"
@@ -14,7 +14,7 @@ Extraction "../ocaml/kvmodel.ml"
   alpha_defDNA alpha_redPROTEIN alpha_ambPROTEIN histogram detect_sums detect_alphabet bits_of_f64
   exact_margin total_letters class_count only_po only_u is_nuc_letter
   compare_model ref_aligned
-  bpm_block bpm64 bpm256 sed firstn
+  bpm_block bpm64 bpm256 sed firstn bpm_block_bits bpm64_bits
   read_inputs rows_of write_fasta write_clu write_msf parse_format read_lines detect_format
   cli_main predicted_run_stage exit_code
   progressive guide_tasks sort_tasks np_of_params alg_f32 distance_matrix bits_of_f32
